@@ -35,9 +35,10 @@ const (
 	GetOp   // explicit read through an actor (C13 late reads; reads are otherwise observations)
 	GetKeysOp
 	GetReaderOp
+	HoldReader // open a reader through an actor and keep it: drained at the end of the history (or before a reopening)
 )
 
-var kindNames = [...]string{"Set", "SetReader", "Create", "Delete", "Begin", "Commit", "Rollback", "GC", "Reopen", "Restart", "Get", "GetKeys", "GetReader"}
+var kindNames = [...]string{"Set", "SetReader", "Create", "Delete", "Begin", "Commit", "Rollback", "GC", "Reopen", "Restart", "Get", "GetKeys", "GetReader", "HoldReader"}
 
 func (k Kind) String() string { return kindNames[k] }
 
@@ -92,6 +93,8 @@ func (o Op) String() string {
 			return fmt.Sprintf("T%d=Begin()", o.Actor)
 		}
 		return fmt.Sprintf("T%d=Begin(%s)", o.Actor, o.Level)
+	case HoldReader:
+		return fmt.Sprintf("%sHoldReader(%s)", a, kq(o.Key))
 	case Commit, Rollback, GetKeysOp:
 		if o.Actor == Unknown && o.Kind != GetKeysOp {
 			return a + o.Kind.String() + "(" + idVarNames[o.IDVar] + ")"
@@ -141,12 +144,17 @@ func HistoryString(h []Op) []string {
 
 // Options of a run.
 type Options struct {
-	Slots       int
-	ObsKeys     []string // keys read after every step (include one that is never written)
-	Eager       bool     // settle all background work after every step
-	Spec        dbh.Spec
-	LateObs     bool // also read through finished handles after every step (C13)
-	ReaderObs   bool // observe through GetReader as well as Get
+	Slots     int
+	ObsKeys   []string // keys read after every step (include one that is never written)
+	Eager     bool     // settle all background work after every step
+	Spec      dbh.Spec
+	LateObs   bool // also read through finished handles after every step (C13)
+	ReaderObs bool // observe through GetReader as well as Get
+	MapDesc   bool // instrumented map ranges iterate in descending key order
+	// HeldReaders: every collection pass runs while readers are open: before the pass every actor opens a
+	// reader on every key it can read, after the pass the readers are drained and must deliver the whole
+	// value they were opened on (a read in progress is a read the collector must not change)
+	HeldReaders bool
 	ObsAutoOnly bool // observe through the autocommit actor only
 	NoObs       bool // no observation after steps (the caller observes itself)
 	// OpenFn replaces dbh.Open (the gRPC tier starts a server and returns the external client);
@@ -180,6 +188,35 @@ type Runner struct {
 	FPs   map[uint64]struct{}
 	ctx   context.Context
 	Ended map[int]string // finished slots: how they ended
+	held  []heldReader
+}
+
+type heldReader struct {
+	ak, key string
+	at      int
+	rc      io.ReadCloser
+	exp     model.Val
+}
+
+// DrainHeld reads the readers HoldReader opened to their end: each must deliver the whole value it was
+// opened on, whatever was written, ended or collected since.
+func (r *Runner) DrainHeld(op Op) *Mismatch {
+	hs := r.held
+	r.held = nil
+	for _, h := range hs {
+		got, err := dbh.ReadAll(h.rc)
+		r.Obs++
+		want := r.expectBytes(h.exp)
+		if err != nil || !bytes.Equal(got, want) {
+			d := "error " + dbh.ShortErr(err)
+			if err == nil {
+				d = dbh.Describe(got, want)
+			}
+			return r.mism(op, fmt.Sprintf("a reader on %s opened via %s at step %d and drained at the end delivered %s of write #%d's value", kq(h.key), h.ak, h.at, d, h.exp.ID),
+				fmt.Sprintf("seq|held-reader@%s|exp=value,obs=%s", h.ak, wordOf(d)))
+		}
+	}
+	return nil
 }
 
 // chunkReader hands the content out in reads of prescribed sizes (as a pipe or a multi-reader would).
@@ -394,10 +431,69 @@ func (r *Runner) apply(op Op) *Mismatch {
 			return m
 		}
 	case GC:
+		type held struct {
+			ak, key string
+			rc      io.ReadCloser
+			exp     model.Val
+		}
+		var hs []held
+		if r.Opt.HeldReaders {
+			actors := []int{model.Auto}
+			if !r.Opt.ObsAutoOnly {
+				actors = append(actors, r.M.OpenSlots()...)
+			}
+			for _, a := range actors {
+				for _, k := range r.Opt.ObsKeys {
+					exp, eerr := r.M.Get(a, k)
+					if eerr != model.OK {
+						continue
+					}
+					st, ctx := r.store(a)
+					rc, err := st.GetReader(ctx, k)
+					if err != nil {
+						return r.mism(op, fmt.Sprintf("GetReader(%s) via %s before the collection pass failed: %s", kq(k), actorKind(r.M, a), dbh.ShortErr(err)),
+							fmt.Sprintf("seq|GetReader@%s|exp=value,obs=%s", actorKind(r.M, a), dbh.Class(err)))
+					}
+					hs = append(hs, held{actorKind(r.M, a), k, rc, exp})
+				}
+			}
+		}
 		if err := dbh.GCOn(r.In); err != nil {
 			return r.mism(op, "GC failed: "+dbh.ShortErr(err), "seq|GC|exp=nil,obs=error")
 		}
+		for _, h := range hs {
+			got, err := dbh.ReadAll(h.rc)
+			r.Obs++
+			want := r.expectBytes(h.exp)
+			if err != nil || !bytes.Equal(got, want) {
+				d := "error " + dbh.ShortErr(err)
+				if err == nil {
+					d = dbh.Describe(got, want)
+				}
+				return r.mism(op, fmt.Sprintf("a reader on %s opened via %s before the collection pass and drained after it delivered %s of write #%d's value", kq(h.key), h.ak, d, h.exp.ID),
+					fmt.Sprintf("seq|held-reader@%s|exp=value,obs=%s", h.ak, wordOf(d)))
+			}
+		}
+	case HoldReader:
+		a := op.Actor
+		if a >= 0 && (a >= len(r.M.Txs) || r.M.Txs[a].State != model.TxOpen) {
+			break // that slot holds no open transaction here
+		}
+		exp, eerr := r.M.Get(modelActor(a), op.Key)
+		if eerr != model.OK {
+			break // nothing to read
+		}
+		st, ctx := r.store(a)
+		rc, err := st.GetReader(ctx, op.Key)
+		if err != nil {
+			return r.mism(op, fmt.Sprintf("GetReader(%s) via %s failed: %s", kq(op.Key), actorKind(r.M, a), dbh.ShortErr(err)),
+				fmt.Sprintf("seq|GetReader@%s|exp=value,obs=%s", actorKind(r.M, a), dbh.Class(err)))
+		}
+		r.held = append(r.held, heldReader{actorKind(r.M, a), op.Key, r.Step, rc, exp})
 	case Reopen, Restart:
+		if m := r.DrainHeld(op); m != nil {
+			return m
+		}
 		if err := r.In.Close(); err != nil {
 			return r.mism(op, "Close failed: "+dbh.ShortErr(err), "seq|Close|exp=nil,obs=error")
 		}
@@ -608,6 +704,8 @@ type Result struct {
 // Run executes one history on a fresh world. It must be called from a managed main thread.
 func Run(opt Options, hist []Op) (res *Result) {
 	res = &Result{}
+	vrt.MapOrderDesc = opt.MapDesc
+	defer func() { vrt.MapOrderDesc = false }()
 	vrt.SetBranching(false)
 	dbh.FreshWorld()
 	r := &Runner{Opt: opt}
@@ -644,6 +742,10 @@ func Run(opt Options, hist []Op) (res *Result) {
 				return
 			}
 		}
+	}
+	if m := r.DrainHeld(Op{Kind: HoldReader, Actor: model.Auto}); m != nil {
+		res.Mismatch = m
+		return
 	}
 	if opt.Epilogue != nil {
 		if m := opt.Epilogue(r); m != nil {
